@@ -264,7 +264,11 @@ impl Matrix {
                 _ => unreachable!(),
             },
             Constructor::Variant((enum_def, idx)) => {
-                let data_ty = data_ty_of_variant(statics, enum_def, *idx);
+                let ty_args = match &expanded.types[0] {
+                    Type::Nominal(_, args) => args.clone(),
+                    _ => vec![],
+                };
+                let data_ty = data_ty_of_variant(statics, enum_def, *idx, &ty_args);
                 match data_ty {
                     Type::Never => unreachable!(),
                     Type::InterfaceOutput(..) => unreachable!(),
@@ -539,9 +543,9 @@ impl DeconstructedPat {
             {
                 struct_field_tys(statics, struct_def, args)
             }
-            Type::Nominal(_, _) => match ctor {
+            Type::Nominal(_, ty_args) => match ctor {
                 Constructor::Variant((enum_def, idx)) => {
-                    let data_ty = data_ty_of_variant(statics, enum_def, *idx);
+                    let data_ty = data_ty_of_variant(statics, enum_def, *idx, ty_args);
 
                     if !matches!(data_ty, Type::Void) {
                         vec![data_ty.clone()]
@@ -572,6 +576,15 @@ impl DeconstructedPat {
                     .iter()
                     .map(wildcard_of)
                     .collect()
+            }
+            Type::Nominal(_, ty_args) if matches!(ctor, Constructor::Variant(..)) => {
+                let Constructor::Variant((enum_def, idx)) = ctor else { unreachable!() };
+                let data_ty = data_ty_of_variant(statics, enum_def, *idx, ty_args);
+                if matches!(data_ty, Type::Void) {
+                    vec![]
+                } else {
+                    vec![wildcard_of(&data_ty)]
+                }
             }
             Type::Tuple(tys) | Type::Nominal(_, tys) => tys.iter().map(wildcard_of).collect(),
             _ => vec![],
@@ -621,16 +634,31 @@ fn subst_solved_ty(ty: &Type, subst: &HashMap<PolytypeDeclaration, Type>) -> Typ
     }
 }
 
-fn data_ty_of_variant(statics: &StaticsContext, enum_def: &Rc<EnumDef>, idx: usize) -> Type {
+// payload type of a variant, with the enum's type parameters replaced by the type arguments
+// of the scrutinee (e.g. `some(T)` of `option<bool>` carries a `bool`)
+fn data_ty_of_variant(
+    statics: &StaticsContext,
+    enum_def: &Rc<EnumDef>,
+    idx: usize,
+    args: &[Type],
+) -> Type {
+    let mut subst: HashMap<PolytypeDeclaration, Type> = HashMap::default();
+    for (i, ty_arg) in enum_def.ty_args.iter().enumerate() {
+        if let Some(Declaration::Polytype(decl)) = statics.resolution_map.get(&ty_arg.name.id)
+            && i < args.len()
+        {
+            subst.insert(decl.clone(), args[i].clone());
+        }
+    }
     let variant = &enum_def.variants[idx];
     let variant_data = &variant.fields;
     match variant_data.len() {
         0 => Type::Void,
-        1 => variant_data[0].ty.to_solved_type(statics).unwrap(),
+        1 => subst_solved_ty(&variant_data[0].ty.to_solved_type(statics).unwrap(), &subst),
         _ => Type::Tuple(
             variant_data
                 .iter()
-                .map(|field| field.ty.to_solved_type(statics).unwrap())
+                .map(|field| subst_solved_ty(&field.ty.to_solved_type(statics).unwrap(), &subst))
                 .collect(),
         ),
     }
